@@ -94,11 +94,11 @@ func (dm *DagModifier) WriteAt(b []byte, offset int64) (int, error) {
 	// TODO: this is currently VERY inefficient
 	// each write that happens at an offset other than the current one causes a
 	// flush to disk, and dag rewrite
-	if offset == int64(dm.writeStart) && dm.wrBuf != nil {
-		// If we would overwrite the previous write
-		if len(b) >= dm.wrBuf.Len() {
-			dm.wrBuf.Reset()
-		}
+	if offset == int64(dm.writeStart) && dm.wrBuf != nil && len(b) >= dm.wrBuf.Len() {
+		// We would overwrite the whole previous write: drop it and
+		// continue from where it started.
+		dm.wrBuf.Reset()
+		dm.curWrOff = dm.writeStart
 	} else if uint64(offset) != dm.curWrOff {
 		size, err := dm.Size()
 		if err != nil {
@@ -116,6 +116,7 @@ func (dm *DagModifier) WriteAt(b []byte, offset int64) (int, error) {
 			return 0, err
 		}
 		dm.writeStart = uint64(offset)
+		dm.curWrOff = uint64(offset)
 	}
 
 	return dm.Write(b)
